@@ -24,6 +24,7 @@ type ProgOpts struct {
 	CallHeavy  bool // many functions, closures, variadic/spread calls
 	FailOps    bool // operations that raise runtime errors (1/0 via variables, bad index, call of non-callable)
 	NoTopReturn bool // no `return` outside function literals (stream eval: fragments must not return early)
+	SingleKeyMaps bool // map literals with at most one key (their String() does not depend on Go's map order)
 }
 
 // DefaultProgOpts is a mostly-valid mix of everything the VM model supports.
@@ -314,7 +315,11 @@ func (g *progGen) stmt(sb *strings.Builder, sc *scope, depth int, ind string) {
 		if v == "" {
 			v = g.varOfKind(sc, 'M')
 			if v != "" {
-				fmt.Fprintf(sb, "%s%s.%s = %s\n", ind, v, []string{"a", "b", "k"}[g.r.Intn(3)], g.exprK(sc, 1, 'I'))
+				key := []string{"a", "b", "k"}[g.r.Intn(3)]
+				if g.o.SingleKeyMaps {
+					key = "a"
+				}
+				fmt.Fprintf(sb, "%s%s.%s = %s\n", ind, v, key, g.exprK(sc, 1, 'I'))
 				return
 			}
 		}
@@ -412,6 +417,9 @@ func (g *progGen) expr(sc *scope, depth int) string {
 		return g.arrayExpr(sc, depth)
 	case k == 11 && g.o.Containers:
 		n := g.r.Intn(3)
+		if g.o.SingleKeyMaps && n > 1 {
+			n = 1
+		}
 		var es []string
 		keys := []string{"a", "b", "k"}
 		for i := 0; i < n; i++ {
@@ -529,6 +537,9 @@ func (g *progGen) exprK(sc *scope, depth int, k byte) string {
 		return g.exprK(sc, depth-1, 'A') + "[" + []string{"0", "0", "1", "2"}[g.r.Intn(4)] + ":]"
 	case 'M':
 		n := g.r.Intn(3)
+		if g.o.SingleKeyMaps && n > 1 {
+			n = 1
+		}
 		var es []string
 		keys := []string{"a", "b", "k"}
 		for i := 0; i < n; i++ {
